@@ -27,7 +27,7 @@ TraceInit == Init /\ l = 1 /\ TLCSet(1, 1)
 \* a new recorded run starts: back to the initial state
 Begin == /\ Is("Begin")
          /\ def' = [r \in Reqs |-> Unchosen]
-         /\ disk' = [k \in Keys |-> NoRec]
+         /\ disk' = [k \in Keys |-> NoRec] /\ cache' = [k \in Keys |-> NoCache]
          /\ mapLock' = None /\ holder' = [k \in Keys |-> None]
          /\ pc' = [r \in Reqs |-> "idle"] /\ idx' = [r \in Reqs |-> 1]
          /\ loc' = [r \in Reqs |-> <<>>] /\ res' = [r \in Reqs |-> <<>>] /\ nxt' = [r \in Reqs |-> <<>>]
@@ -46,7 +46,7 @@ TInvoke == /\ Is("Invoke")
                  /\ loc' = [loc EXCEPT ![r] = [i \in 1 .. n |-> NoRec]]
                  /\ res' = [res EXCEPT ![r] = [i \in 1 .. n |-> "UNKNOWN"]]
                  /\ nxt' = [nxt EXCEPT ![r] = [i \in 1 .. n |-> NoRec]]
-           /\ UNCHANGED <<disk, mapLock, holder, idx, sigs, released, order, faulted, crashes, faults, closed>>
+           /\ UNCHANGED <<disk, cache, mapLock, holder, idx, sigs, released, order, faulted, crashes, faults, closed>>
 
 TRulerEnter == Is("RulerEnter") /\ Validate(Ev.r)
 TPreLock == Is("PreLock") /\ PreLock(Ev.r)
